@@ -344,9 +344,9 @@ func c11cde(c *Ctx, v *variants.Variant) {
 			if ds, ok := is.Body.List[0].(*ast.DeferStmt); ok {
 				deferPos = ds
 				guard = "p.recover"
-				if fl, ok := ds.Call.Fun.(*ast.FuncLit); ok {
+				{
 					txt := ""
-					ast.Inspect(fl.Body, func(n ast.Node) bool {
+					ast.Inspect(ds.Call, func(n ast.Node) bool {
 						switch x := n.(type) {
 						case *ast.IfStmt:
 							if x.Init != nil && strings.Contains(nospace(x.Init.(*ast.AssignStmt).Rhs[0]), "recover()") {
@@ -362,7 +362,7 @@ func c11cde(c *Ctx, v *variants.Variant) {
 						return true
 					})
 					var whyH string
-					okBody, whyH = recoverHandlerSemantics(c, v, fd, fl)
+					okBody, whyH = recoverHandlerSemantics(c, v, fd, ds)
 					if !okBody {
 						guard += " handler: " + whyH + " [" + txt + "]"
 					}
@@ -450,12 +450,53 @@ func errAlwaysRecorded(c *Ctx, v *variants.Variant, rule string) {
 // recoverHandlerSemantics: on every path of the deferred handler on which recover() returned a value, the result value
 // is set to nil, the panic value is recorded (itself when it is an error, formatted with %v otherwise) and the error
 // result becomes the list; on the other paths nothing happens.
-func recoverHandlerSemantics(c *Ctx, v *variants.Variant, fd *ast.FuncDecl, fl *ast.FuncLit) (bool, string) {
+func recoverHandlerSemantics(c *Ctx, v *variants.Variant, fd *ast.FuncDecl, ds *ast.DeferStmt) (bool, string) {
 	if fd.Type.Results == nil || len(fd.Type.Results.List) != 2 || len(fd.Type.Results.List[0].Names) != 1 || len(fd.Type.Results.List[1].Names) != 1 {
 		return false, "parse has no named results"
 	}
-	paths, multi := c.vnorm(v).without("addErr", "addErrAt").normBlockNamed(fd, fl.Body.List)
-	valV, errV := multi[fd.Type.Results.List[0].Names[0].Name], multi[fd.Type.Results.List[1].Names[0].Name]
+	valName, errName := fd.Type.Results.List[0].Names[0].Name, fd.Type.Results.List[1].Names[0].Name
+	var paths []bpath
+	valV, errV := "", ""
+	if fl, ok := ds.Call.Fun.(*ast.FuncLit); ok {
+		// a deferred closure: it writes the named results directly
+		var multi map[string]string
+		paths, multi = c.vnorm(v).without("addErr", "addErrAt").normBlockNamed(fd, fl.Body.List)
+		valV, errV = multi[valName], multi[errName]
+	} else {
+		// a deferred function of the runtime that calls recover() itself and gets the addresses of the results
+		var callee *ast.FuncDecl
+		name := callSel(ds.Call)
+		for _, f := range v.Funcs() {
+			if f.Name.Name == name && f.Body != nil {
+				callee = f
+			}
+		}
+		if callee == nil {
+			return false, "the deferred call is neither a closure nor a function of the runtime"
+		}
+		direct := false
+		for _, ce := range callsIn(callee.Body) {
+			if callName(ce) == "recover" {
+				direct = true
+			}
+		}
+		if !direct {
+			return false, "the deferred function does not call recover() itself (recover only works in the deferred function)"
+		}
+		ps := paramNames(callee)
+		for i, a := range ds.Call.Args {
+			if i >= len(ps) {
+				break
+			}
+			switch nospace(a) {
+			case "&" + valName:
+				valV = "*" + ps[i]
+			case "&" + errName:
+				errV = "*" + ps[i]
+			}
+		}
+		paths = c.vnorm(v).without("addErr", "addErrAt").normPaths(callee)
+	}
 	if valV == "" || errV == "" || len(paths) == 0 {
 		return false, "result variables not found"
 	}
